@@ -1,6 +1,6 @@
 (* Observation vectors for the C20 contract tie: what hx_utf8 prints, predicted by the model. *)
 From Coq Require Import NArith ZArith Bool List.
-From Aelys Require Import Model.Utf8 Model.Utf8Natives.
+From Aelys Require Import Model.Utf8 Model.Utf8Natives Model.Utf8Find.
 Import ListNotations.
 Local Open Scope Z_scope.
 
@@ -73,6 +73,10 @@ Definition prog_obs (k : sel) (cs : list N) : list Z :=
 (* natives program (hx_utf8 nat_program): fixed order, every result framed *)
 Definition sub_params (n : Z) : list (Z * Z) :=
   [(0, n); (1, 2); (n - 1, 5); (n, 1); (n + 1, 1); (0, 0); (-1, 2); (2, -1); (1, n)].
+(* needles of the natives program: the middle character, the last two characters, the empty
+   string (found at 0), the string followed by `z` (absent) *)
+Definition find_needles (cs : list N) : list (list N) :=
+  [firstn 1 (skipn (Nat.div2 (length cs)) cs); skipn (length cs - 2) cs; []; cs ++ [122%N]].
 Definition nat_obs (cs ps : list N) : list Z :=
   let s := utf8 cs in
   let n := zn (length cs) in
@@ -86,7 +90,8 @@ Definition nat_obs (cs ps : list N) : list Z :=
   ++ framed (nat_repeat s (-1)) ++ framed (nat_repeat s 0) ++ framed (nat_repeat s 1) ++ framed (nat_repeat s 2)
   ++ framed (nat_chars s) ++ framed (nat_split_empty s)
   ++ framed (nat_concat s pad)
-  ++ map (nat_byte_at s) [-1; 0; bl - 1; bl].
+  ++ map (nat_byte_at s) [-1; 0; bl - 1; bl]
+  ++ map (fun needle => nat_find s (utf8 needle)) (find_needles cs).
 
 Definition uobs (q : uq) : list Z :=
   match q with
